@@ -78,7 +78,7 @@ func builtinFunctionApply(call FunctionCall) Value {
 		return call.thisObject().call(this, nil, false, nativeFrame)
 	case valueObject:
 	default:
-		panic(call.runtime.panicTypeError("Function.apply unknown type %T for second argument"))
+		panic(call.runtime.panicTypeError("Function.apply unknown type %T for second argument", argumentList.value))
 	}
 
 	arrayObject := argumentList.object()
